@@ -27,6 +27,7 @@ CONSTANTS MinCols, MaxCols,
           MaxBad,      \* at most this many refusable cells per row or SET list
           WithUpd,     \* UpdateAll enabled
           WithUnknown, \* statements naming a column the table does not have (x |-> TRUE in the scenario: column "zz" is added to the list)
+                      \* or naming their first column twice (y |-> TRUE)
           MaxMut,      \* Put / UpdateAll attempts per scenario
           MaxLife,     \* Flush / EvictAll / Restart steps per scenario
           LifeFrom,    \* lifecycle steps only once this many Put / UpdateAll were attempted (0: anywhere)
@@ -128,16 +129,16 @@ DoUpd == /\ WithUpd
                                         ELSE <<[a |-> "upd", k |-> nmut', set |-> items, ok |-> ret'.ok]>>
                        /\ hist' = Append(hist, lastmut'[1])
 
-\* an otherwise valid INSERT / UPDATE whose column list also names "zz"
+\* an otherwise valid INSERT / UPDATE whose column list also names "zz" (x), or names its first column twice (y)
 DoUnknown ==
   /\ WithUnknown
-  /\ \E raw \in Prod(schema, Len(schema), {}) :
+  /\ \E raw \in Prod(schema, Len(schema), {}) : \E kind \in {"x", "y"} :
        /\ RawOK(schema, raw) /\ BadCount(schema, raw) = 0 /\ FillCols(raw) = {}
-       /\ \/ /\ UnknownColumn("put")
-             /\ lastmut' = <<[a |-> "put", k |-> nmut', row |-> [i \in 1..Len(raw) |-> Strip(raw[i])], ok |-> FALSE, x |-> TRUE]>>
+       /\ \/ /\ IF kind = "x" THEN UnknownColumn("put") ELSE RepeatedColumn("put")
+             /\ lastmut' = <<[a |-> "put", k |-> nmut', row |-> [i \in 1..Len(raw) |-> Strip(raw[i])], ok |-> FALSE, x |-> kind = "x", y |-> kind = "y"]>>
           \/ /\ Len(Load) >= 1
-             /\ UnknownColumn("upd")
-             /\ lastmut' = <<[a |-> "upd", k |-> nmut', set |-> <<[c |-> 1, v |-> Strip(raw[1]), on |-> TRUE]>>, ok |-> FALSE, x |-> TRUE]>>
+             /\ IF kind = "x" THEN UnknownColumn("upd") ELSE RepeatedColumn("upd")
+             /\ lastmut' = <<[a |-> "upd", k |-> nmut', set |-> <<[c |-> 1, v |-> Strip(raw[1]), on |-> TRUE]>>, ok |-> FALSE, x |-> kind = "x", y |-> kind = "y"]>>
        /\ hist' = Append(hist, lastmut'[1])
 
 MCNext ==
